@@ -92,6 +92,7 @@ class World:
         self.garbage, self.garbage_p = garbage, garbage_p  # hostile value at any position
         self.returns = []              # (response path, value returned by an explicit resolver)
         self.dir_calls = []            # (directive, path, canon(directive_args), args) recorded by @vtrec
+        self.shared_exc = None         # ONE exception instance raised by every "raise_shared" fault (known finding F11)
         self.label = None              # bundle label (C17): closures registered for another schema name must not run
         self.source_log = []           # subscription source events: ("start", field, canon(args)) ("event", i) ("finish",)
         self.events = []               # event spec list for the subscription source: "obj" | "null"
@@ -123,7 +124,7 @@ class World:
         if fault is None:
             return ("value", v, key)
         kind = fault[0]
-        if kind in ("raise", "raise_tf"):
+        if kind in ("raise", "raise_tf", "raise_shared"):
             return (kind, None, key)
         return ("value", self.apply_fault(v, fault, T, fname, key), key)
 
@@ -232,6 +233,9 @@ class World:
         out = self.default_outcome(m.t, k, m.id)
         if out[0] == "absent":
             raise exc(k)
+        if out[0] == "raise_shared":
+            self.fired.append(out[2])
+            raise self.shared_exc
         if out[0] in ("raise", "raise_tf"):
             self.fired.append(out[2])
             raise make_exception(out[0], out[2])
@@ -330,6 +334,8 @@ class World:
             await self.sched.gate("r:" + "/".join(map(str, info.path.as_list())))
         if out[2] in self.faults:
             self.fired.append(out[2])
+        if out[0] == "raise_shared":
+            raise self.shared_exc
         if out[0] in ("raise", "raise_tf"):
             raise make_exception(out[0], out[2])
         self.returns.append((tuple(info.path.as_list()), out[1]))
@@ -389,6 +395,14 @@ def bad_leaf(s, name):
     if td.kind == "ENUM":
         return "NOT_A_DECLARED_VALUE_"
     return 1.5  # tag needs str, even needs even int
+
+
+def make_shared_exception():
+    from tartiflette.types.exceptions.tartiflette import TartifletteError
+
+    class SharedUserError(TartifletteError):
+        pass
+    return SharedUserError("shared user error instance", extensions={"code": "E_SHARED"})
 
 
 def make_exception(kind, key):
